@@ -363,3 +363,35 @@ func H_C04_Large() {
 	vrt.TraceBool("done", true)
 	vrt.Reach("large/end")
 }
+
+// H_C04_SeekFakeMarker: the marker bytes inside a payload, followed by bytes that do not parse as a record header
+// in one way or another (a flag byte and a run of 0xff: length varints that overflow or point far beyond the file),
+// must not stop SeekNext from finding the next real record.
+func H_C04_SeekFakeMarker() {
+	fs := vrt.NewFS()
+	defer fs.Cleanup()
+	k := vrt.Range("ff", 0, 12)
+	payload := []byte{0x91, 0x8d, 0x4c, vrt.Byte("flag")}
+	for i := 0; i < k; i++ {
+		payload = append(payload, 0xff)
+	}
+	payload = append(payload, vrt.Byte("tail"))
+	recs := [][]byte{payload, {vrt.Byte("second")}}
+	p := fs.Path("f.rio")
+	offs, size := vWriteFile(fs, p, CompressionTypeNone, 64, recs)
+	win := []int{4, 7, 64}[vrt.Choose("window", 3)]
+	mm, err := mmapOpenForHarness(p)
+	vrt.Assert(err == nil, "fakemarker/mmap-open-no-error")
+	m := &MMapReader{mmapReader: mm, path: p, seekLen: win}
+	vrt.Assert(m.Open() == nil, "fakemarker/open-no-error")
+	// every offset behind the start of the first record up to the start of the second one
+	off := uint64(vrt.Range("offset", int(offs[0])+1, int(offs[1])))
+	_ = size
+	gotOff, got, err := m.SeekNext(off)
+	vrt.Assert(err == nil, "fakemarker/finds-next-record")
+	vrt.Assert(gotOff == offs[1], "fakemarker/offset-of-next-record")
+	vrt.Assert(vrt.SameBytes(got, recs[1]), "fakemarker/payload-of-next-record")
+	vrt.TraceBool("err", err != nil)
+	m.Close()
+	vrt.Reach("fakemarker/end")
+}
